@@ -531,6 +531,84 @@ def lines_part(chk, spec_exe, lit_exe, drv, problems):
                              "skipped_undefined_in_C": n_ub, "disagreements": nbad}
 
 
+# ------------------------------------------------------------------ /VERSION scope across fragments
+
+def scoping_part(chk, spec_exe, drv, problems):
+    """/VERSION has immediate scope, propagates downwards into sub-fragments, and upwards only when both the
+    including fragment and the directive are of Version <= 8 (dirfile-format(5), /VERSION).  Parser mode after an
+    /INCLUDE, observed through two lines whose acceptance depends on (pedantic, Version).  Oracle in this file
+    (validated only; the full scope model is C09's)."""
+    code, spec = gate_tables(drv, problems)
+    if len(code) != len(GNAMES):
+        return
+    def probes(gates, ped, st):
+        r = []
+        # 'ENDIAN little' without a slash: a directive unless the slash is mandatory / ENDIAN does not exist yet
+        ok1 = not (ped and st >= gates["S_SLASH_REQUIRED"]) and ((not ped) or st >= gates["D_ENDIAN"])
+        ok2 = (not ped) or st >= gates["T_MPLEX"]
+        return ok1, ok2
+    cases = []
+    for mode in "DPQ":
+        for vp in (None, 5, 8, 9, 10):
+            for vc in (None, 5, 7, 8, 9, 10):
+                for child_probe in (False, True):
+                    ty = "UINT8"
+                    parent = []
+                    if vp is not None:
+                        parent.append("/VERSION %d" % vp)
+                    parent += ["a RAW %s 1" % ty, "b RAW %s 1" % ty, "/INCLUDE child"]
+                    pl1 = len(parent) + 1
+                    parent += ["ENDIAN little", "x MPLEX a b 1"]
+                    child = []
+                    if vc is not None:
+                        child.append("/VERSION %d" % vc)
+                    child += ["", "", "", "", "", "", "", "", "", "", "", ""][:12 - len(child)]
+                    if child_probe:
+                        child += ["ENDIAN big", "y MPLEX a b 1"]
+                    cases.append((mode, vp, vc, child_probe, "\n".join(parent) + "\n", "\n".join(child) + "\n", pl1))
+    def expect(gates, mode, vp, vc, child_probe, pl1):
+        ped, st = (mode == "P"), 10
+        if vp is not None:
+            ped, st = (mode != "Q"), vp
+        old = (ped, st)
+        if vc is not None:
+            ped, st = (mode != "Q"), vc
+        out = []
+        if child_probe:
+            o1, o2 = probes(gates, ped, st)
+            if not o1: out.append("8@13")
+            if not o2: out.append("8@14")
+        # back in the parent
+        if (old[1] >= 9 and old[0]) or st >= 9:
+            ped, st = old
+        o1, o2 = probes(gates, ped, st)
+        if not o1: out.append("8@%d" % pl1)
+        if not o2: out.append("8@%d" % (pl1 + 1))
+        return out
+    inp = "".join("%sI %s child=%s\n" % (m, par.encode().hex(), ch.encode().hex()) for m, vp, vc, cp, par, ch, pl1 in cases).encode()
+    rc, out, err = run([spec_exe], inp)
+    ol = out.splitlines()
+    if rc != 0 or len(ol) != len(cases):
+        problems.append("scoping harness failed rc=%d lines=%d/%d %s" % (rc, len(ol), len(cases), err[-300:]))
+        return
+    nbad = 0
+    for (m, vp, vc, cp, par, ch, pl1), l in zip(cases, ol):
+        o = parse_spec_out(l)
+        want, want_code = expect(spec, m, vp, vc, cp, pl1), expect(code, m, vp, vc, cp, pl1)
+        if o["cb"] != want or o["E"] != 0:
+            nbad += 1
+            if nbad == 1:
+                chk.violation("scope/VERSION/%s/p%s/c%s" % (m, vp, vc),
+                              "mode %s, parent /VERSION %s including a fragment with /VERSION %s: the callback saw %s (error %d), the scope rules of /VERSION demand %s" % (
+                                  {"D": "default", "P": "GD_PEDANTIC", "Q": "GD_PERMISSIVE"}[m], vp, vc, o["cb"], o["E"], want),
+                              {"kind": "version-scope", "mode": m, "format_file": par, "child": ch, "observed": l, "expected": want,
+                               "how": "printf '%sI %s child=%s\\n' | <harness/C08/spec>" % (m, par.encode().hex(), ch.encode().hex())},
+                              found=(want == want_code))
+    chk.cov["evaluations"] += len(cases)
+    chk.cov["distinct_nontrivial"] += sum(1 for c in cases if expect(spec, c[0], c[1], c[2], c[3], c[6]))
+    chk.cov["version_scope"] = {"cases": len(cases), "disagreements": nbad}
+
+
 # ------------------------------------------------------------------ callback protocol
 
 def callback_part(chk, spec_exe, drv, problems):
@@ -863,6 +941,7 @@ def main():
     literal_part(chk, lit_exe, drv, problems)
     callback_part(chk, spec_exe, drv, problems)
     lines_part(chk, spec_exe, lit_exe, drv, problems)
+    scoping_part(chk, spec_exe, drv, problems)
     chk.cov["rule"] = ("tokeniser: every string of the listed lengths over the listed alphabets (exhaustive enumeration, both dialects: Version 5 and Version 10) "
                        "through gd_strtok (token sequence + error) and one _GD_Tokenise call with MAX_IN_COLS (tokens, suberror, *pos), plus generated lines built from "
                        "escape/quote/whitespace/comment pieces incl. bytes >= 0x80, embedded LF and > 14 tokens; non-trivial = Version >= 6 strings containing a backslash, "
